@@ -26,6 +26,7 @@ PROPERTY = {
         "scipy rows compared at 2e-5 relative, euler rows at 1e-8 relative",
     ],
 }
+PROPERTY["rule"] += ' One to three keys per sweep (three-key sweeps with permuted grids included).'
 
 
 def apply_row(spec, pmap, row):
